@@ -105,6 +105,14 @@ func runSingle(prop *property, repo string, cfg Config, tier string) (res *Resul
 	res.Funcs = p.nFuncsModule
 	e := newEngine(p)
 	prop.Run(p, e, res, tier)
+	if len(controlsFor(prop.Meta.ID)) > 0 {
+		e2 := newEngine(p)
+		e2.computeFold()
+		ro, _ := discoverRoles(p, e2)
+		if ro != nil {
+			runControls(p, e2, res, ro)
+		}
+	}
 	return res
 }
 
